@@ -22,6 +22,7 @@ pub struct E1Totals {
     pub per_scenario: Vec<serde_json::Value>,
     pub samples: Vec<serde_json::Value>,
     pub actions: std::collections::BTreeMap<String, u64>,
+    pub capped: Vec<String>,
 }
 
 pub fn explore_all(rep: &Arc<Reporter>, scns: Vec<Scenario>, dfs: bool) -> E1Totals {
@@ -37,6 +38,7 @@ pub fn explore_all(rep: &Arc<Reporter>, scns: Vec<Scenario>, dfs: bool) -> E1Tot
         per_scenario: vec![],
         samples: vec![],
         actions: Default::default(),
+        capped: vec![],
     };
     // phase 1: scenarios run concurrently, each single-threaded, with a state cap; phase 2: the
     // ones that hit the cap are re-run from scratch one at a time on all threads (no cap).
@@ -61,11 +63,19 @@ pub fn explore_all(rep: &Arc<Reporter>, scns: Vec<Scenario>, dfs: bool) -> E1Tot
             });
         }
     });
+    // hard cap on generated states per scenario (memory: a state carries its path); a capped
+    // scenario is reported as such and the run is not called exhaustive
+    let hard_cap: usize = std::env::var("VERIF_E1_STATE_CAP").ok().and_then(|s| s.parse().ok()).unwrap_or(40_000_000);
     for (idx, scn) in heavy.into_inner().unwrap() {
         let name = scn.name.clone();
         let t0 = std::time::Instant::now();
-        let r = model::explore(scn, rep.clone(), threads, false, true, None).expect("uncapped run");
-        results.lock().unwrap().push((idx, name, r, t0.elapsed().as_secs_f64()));
+        match model::explore(scn.clone(), rep.clone(), threads, false, true, Some(hard_cap)) {
+            Some(r) => results.lock().unwrap().push((idx, name, r, t0.elapsed().as_secs_f64())),
+            None => {
+                t.capped.push(name.clone());
+                eprintln!("note: scenario {} exceeded {} generated states and was stopped (not exhaustive)", name, hard_cap);
+            }
+        }
     }
     let mut results = results.into_inner().unwrap();
     results.sort_by_key(|x| x.0);
@@ -104,7 +114,8 @@ pub fn finish_e1(rep: Arc<Reporter>, t: E1Totals, extra: Vec<(&str, serde_json::
         ("states_with_two_or_more_outstanding_ids", json!(t.multi)),
         ("transitions_by_action", json!(t.actions)),
         ("scenarios", json!(t.per_scenario)),
-        ("exhaustive", json!(true)),
+        ("exhaustive", json!(t.capped.is_empty())),
+        ("scenarios_stopped_at_state_cap", json!(t.capped)),
         ("explanation", json!("every state is the real ldap3 connection after a history of scheduler/server/network/clock/fault actions; every transition re-executes the history on the real code (so each transition is a trace validated against the implementation); states are de-duplicated by a digest of all observable state; search by stateright")),
     ]);
     for (k, v) in extra {
